@@ -105,7 +105,16 @@ def run(ctx):
             s1 = dict(s0, xs=xs0, req=S.sample_request(s0["case"], s0["routing"], s0["table"], xs0))
             s1["impl"] = run_harness([s1["req"]])[0]
             ss[si] = s1
-    for si, s in enumerate(ss[: nset + nset // 2]):
+    for si in range(nset + nset // 2, min(len(ss), 2 * nset)):
+        # a point at which BOTH fallible steps fail: a zero xi (the matrix step fails) and a lambda coordinate of exactly 0 or 1 (the
+        # Gamma quantile fails); which error is reported must not depend on print_debug_info / return_metadata
+        s0 = ss[si]; n0 = len(s0["case"]["edges"])
+        if n0 >= 3:
+            xs0 = list(s0["xs"]); xs0[rng.choice(range(1, 2 * n0 - 2, 2))] = 0.0; xs0[2 * n0 - 2] = rng.choice([0.0, 1.0])
+            s1 = dict(s0, xs=xs0, req=S.sample_request(s0["case"], s0["routing"], s0["table"], xs0))
+            s1["impl"] = run_harness([s1["req"]])[0]
+            ss[si] = s1
+    for si, s in enumerate(ss[: 2 * nset]):
         for tol in (None, 1e300, 0.0, 1e-17):
             for dbg in (False, True):
                 for meta in (False, True):
@@ -127,8 +136,9 @@ def run(ctx):
     for (si, tol, dbg, meta), a in zip(sinfo, sres):
         ctx.evaluations += 1; ctx.count("settings_combination")
         base = ss[si]["impl"]
-        if tol is not None and a.get("status") in ("unstable", "zerodet") and base.get("status") == "ok":
-            ctx.count("stability_test_rejects_an_ok_sample(allowed)"); continue
+        if tol is not None and a.get("status") in ("unstable", "zerodet") and base.get("status") in ("ok", "gammaerr"):
+            # (the matrix step comes first: with the test on it may reject a point that would otherwise be returned, or that would fail later)
+            ctx.count("stability_test_rejects_a_sample(allowed)"); continue
         if numeric(a) != numeric(base):
             ctx.violation(f"settings (stability_test={tol}, print_debug_info={dbg}, return_metadata={meta}) change the numerical result", S.small_req(ss[si]),
                           expected=numeric(base), observed=numeric(a))
@@ -150,7 +160,11 @@ def run(ctx):
                           observed={k: a[k] for k in ("thread_mismatches", "after_equal", "table_unchanged")})
     # generate_sample_from_rng = sample on exactly get_dimension() draws
     rreqs, rinfo = [], []
-    for s in ss[: (10 if ctx.quick else 60)]:
+    # samplers with odd D and at least two loops first (D*L even although D is odd), then the rest
+    nr = 10 if ctx.quick else 60
+    pick = [s for s in ss if s["case"]["D"] % 2 == 1 and s["routing"]["L"] >= 2][: nr // 2]
+    pick += [s for s in ss if s not in pick][: nr - len(pick)]
+    for s in pick:
         dim = len(s["req"]["x"])
         ks = [rng.getrandbits(53) for _ in range(dim)]
         if len(rreqs) % 4 == 2:
@@ -162,6 +176,12 @@ def run(ctx):
         base_req = dict(s["req"])
         if len(rreqs) % 6 == 4:
             base_req["tol"] = f2b(0.0)      # error paths (a point rejected by the stability test) draw the same numbers, once
+        if len(rreqs) % 10 == 6 and s["routing"]["L"] >= 2:
+            # the number of draws is get_dimension(), a function of the GRAPH: a signature with a missing column (accepted by the API) ...
+            base_req["sig"] = [row[:-1] for row in base_req["sig"]]
+        elif len(rreqs) % 10 == 8:
+            # ... or with a surplus column (the sample fails with a matrix error after the numbers have been drawn)
+            base_req["sig"] = [row + [0] for row in base_req["sig"]]
         rr = dict(base_req, op="rng", k=ks + [rng.getrandbits(53) for _ in range(4)]); del rr["x"]
         rreqs.append(rr); rreqs.append(dict(base_req, x=[f2b(x) for x in xs])); rinfo.append((s, dim))
     rres = run_harness(rreqs)
